@@ -542,6 +542,8 @@ let sc_sorter_operand_merge c =
    descriptor 0, and is released by mtbl_writer_destroy like any other.  Observed at the end only (descriptor 0 is put
    back first, so the count is comparable with the start) *)
 let sc_writer_fd0 c =
+  (* only when this process has a descriptor 0 to close (a harness started without standard input has none) *)
+  if (try ignore (Unix.fstat Unix.stdin); false with _ -> true) then observe c "no standard input: scenario skipped" ~threads_exact:true else
   let path = Filename.concat c.dir "w0.mtbl" in
   (try Sys.remove path with _ -> ());
   let fd = Wr.c_open_rw path true in
